@@ -143,9 +143,18 @@ func (m *mSchema) resync(s *jsonapi.Schema) {
 	}
 }
 
-// validKind asks the library's public vocabulary which attribute kinds exist
-// (so that a tree that gains a kind is not flagged); nullable is irrelevant.
-func validKind(k int) bool { return jsonapi.GetAttrTypeString(k, false) != "" }
+// validKind: the attribute kinds are the package's exported constants. (Asking
+// GetAttrTypeString instead would let a defect in that very function vouch for itself.)
+func validKind(k int) bool {
+	switch k {
+	case jsonapi.AttrTypeString, jsonapi.AttrTypeInt, jsonapi.AttrTypeInt8, jsonapi.AttrTypeInt16, jsonapi.AttrTypeInt32,
+		jsonapi.AttrTypeInt64, jsonapi.AttrTypeUint, jsonapi.AttrTypeUint8, jsonapi.AttrTypeUint16, jsonapi.AttrTypeUint32,
+		jsonapi.AttrTypeUint64, jsonapi.AttrTypeBool, jsonapi.AttrTypeTime, jsonapi.AttrTypeBytes:
+		return true
+	}
+
+	return false
+}
 
 // invariants checks clause (d) of C14 on the real schema.
 func invariants(s *jsonapi.Schema) string {
